@@ -124,6 +124,8 @@ type fontEntry struct {
 	note     string
 	rich     richness // layout richness (set by pickFonts; zero for replayed fonts)
 	upstream [][]rune // texts of the upstream expectation files for this font
+	units    [][]rune      // short pieces of them (syll_test.go)
+	syll     []*syllScript // syllabic scripts the font covers (syll_test.go)
 	nglyphs  int
 	hbFont   *harfbuzz.Font // cached Font for cases without variations
 }
@@ -251,7 +253,9 @@ func loadFont(rel string, index int) (*fontEntry, error) {
 	_, fe.space = fe.face.NominalGlyph(' ')
 	if index == 0 {
 		fe.upstream = upstreamFor(rel)
+		fe.units = upstreamUnits(fe.upstream)
 	}
+	fe.syll = syllScriptsFor(func(r rune) bool { _, ok := fe.face.NominalGlyph(r); return ok })
 	if fe.hb != nil {
 		fe.nglyphs = fe.hb.GlyphCount()
 	}
